@@ -120,6 +120,54 @@ def check_order(ctx, case, what, ranks, exact, margins, desc):
                     return
 
 
+def direct_formula(case):
+    """Model-free re-computation of the published formula from the case (Fractions; Decimal for sqrt)."""
+    name = case["method"]["name"]
+    w = [Fraction(x) for x in case["weights"]]
+    mtx = [[Fraction(x) for x in r] for r in case["matrix"]]
+    objs = case["objectives"]
+    m = len(w)
+    if name == "wsm":
+        return [sum(a * b for a, b in zip(r, w)) for r in mtx]
+    if name == "ratio":
+        return [sum((a * b if o == 1 else -a * b) for a, b, o in zip(r, w, objs)) for r in mtx]
+    if name == "refpoint":
+        ref = [max(r[j] for r in mtx) if objs[j] == 1 else min(r[j] for r in mtx) for j in range(m)]
+        return [max(abs(w[j] * (r[j] - ref[j])) for j in range(m)) for r in mtx]
+    if name == "topsis":
+        wx = [[a * b for a, b in zip(r, w)] for r in mtx]
+        ideal = [max(r[j] for r in wx) if objs[j] == 1 else min(r[j] for r in wx) for j in range(m)]
+        anti = [min(r[j] for r in wx) if objs[j] == 1 else max(r[j] for r in wx) for j in range(m)]
+        metric = case["method"]["metric"]
+
+        def dist(a, b):
+            d = [abs(x - y) for x, y in zip(a, b)]
+            if metric == "cityblock":
+                return CL.D(sum(d))
+            if metric == "chebyshev":
+                return CL.D(max(d))
+            if metric == "sqeuclidean":
+                return CL.D(sum(x * x for x in d))
+            return CL.sqrt(sum(x * x for x in d))
+        out = []
+        for r in wx:
+            db, dw = dist(r, ideal), dist(r, anti)
+            out.append(None if db + dw == 0 else dw / (db + dw))
+        return out
+    return None
+
+
+def direct_oracle(ctx, case, out, margins, key, what):
+    want = direct_formula(case)
+    if want is None or any(x is None for x in want):
+        return
+    got = out["extra"][key]
+    for i, (a, b, mg) in enumerate(zip(got, want, margins)):
+        if a != a or abs(CL.D(a) - CL.D(b)) > CL.D(mg) + abs(CL.D(b)) * CL.D(U) * 4:
+            ctx.oracle_fail(case, {"oracle": f"{what}[{i}] = {a!r} but the published formula gives {b}"})
+            return
+
+
 def compare(ctx, case, out, mos):
     name = case["method"]["name"]
     ex = is_exact(case)
@@ -159,6 +207,7 @@ def compare(ctx, case, out, mos):
         mr, ms = mos[0]
         sw = [(wj if o == 1 else -wj) for wj, o in zip(w, case["objectives"])] if name == "ratio" else w
         margins = [marg([Fraction(a) * Fraction(b) for a, b in zip(r, sw)]) for r in mtx]
+        direct_oracle(ctx, case, out, margins, "score", name + ".score")
         if check_scores(ctx, case, name + ".score", e["score"], ms, margins, ex):
             check_order(ctx, case, name, ranks, ms, margins, True)
             if ex and list(ranks) != list(mr):
@@ -168,6 +217,7 @@ def compare(ctx, case, out, mos):
         if list(map(Fraction, e["reference_point"])) != mrp:
             ctx.disagree(case, {"what": "reference_point", "impl": e["reference_point"], "model": mrp})
         margins = [abs(s) * U * 8 + Fraction(1, 10 ** 300) for s in ms]
+        direct_oracle(ctx, case, out, margins, "score", "refpoint.score")
         if check_scores(ctx, case, "refpoint.score", e["score"], ms, margins, ex):
             check_order(ctx, case, name, ranks, [-s for s in ms], margins, True)
             if ex and list(ranks) != list(mr):
@@ -218,6 +268,7 @@ def compare(ctx, case, out, mos):
         if ex or wellcond:
             tol = Fraction(1, 10 ** 9) if not ex else Fraction(1, 10 ** 13)
             margins = [tol] * n
+            direct_oracle(ctx, case, out, margins, "similarity", "topsis.similarity")
             if check_scores(ctx, case, "topsis.similarity", e["similarity"], sim, margins, False):
                 check_order(ctx, case, name, ranks, sim, margins, True)
         else:
@@ -267,7 +318,9 @@ def malformed(rng, name):
     kind = rng.choice(["min", "zero", "neg"]) if name in ("wsm", "wpm") else rng.choice(["zero", "neg"])
     n, m = len(c["matrix"]), len(c["weights"])
     if kind == "min":
-        c["objectives"][rng.randrange(m)] = -1
+        k = rng.randint(1, m)
+        for j in rng.sample(range(m), k):
+            c["objectives"][j] = -1
     elif kind == "zero":
         c["matrix"][rng.randrange(n)][rng.randrange(m)] = 0.0
     else:
@@ -293,7 +346,7 @@ def run(ctx):
         for _ in range(per):
             cases.append(M.method_case(ctx.rng, name, tier_big=ctx.tier == "thorough"))
         if name in ("wsm", "wpm", "fmf", "multimoora"):
-            for _ in range(max(8, per // 8)):
+            for _ in range(max(40, per // 4)):
                 cases.append(malformed(ctx.rng, name))
     outs = I.pmap(M.evaluate, cases)
     calls, spans = [], []
